@@ -84,7 +84,7 @@ theorem reach_lang (e : Env) (D : Dir e) {r : Ir} {n : Nat} (hs : Seg e.code r 0
     obtain ⟨hpos, hb, s0, h1, h3, hl⟩ := ih
     rcases hpos with hst | hend
     · obtain ⟨_, _, e3, _, _⟩ := seg_step e D hs 0 Keps f m hst
-      obtain ⟨g1, g2⟩ := e3 bm hc hok hany hnp
+      obtain ⟨g1, g2⟩ := e3 bm hb hc hok hany hnp
       exact ⟨g1, D.okCons hb hok, s0, by omega, h3, fun q' hq => hl q' (g2 q' hq)⟩
     · exfalso
       rw [hend.1, hmatch] at hc
